@@ -336,7 +336,9 @@ def _block_scalar_lines(node, indent):
 
 def _is_block_scalar(node):
     return node["t"] == "s" and node.get("q") in (">", "|") \
-        and isinstance(node["v"], str)
+        and isinstance(node["v"], str) and node.get("raw") is None \
+        and not any(ord(ch) < 0x20 and ch != "\n" or 0x7f <= ord(ch) <= 0x9f
+                    for ch in node["v"])
 
 
 def block_lines(node, indent=0):
